@@ -414,12 +414,7 @@ func scanReusedSlices(info *types.Info, files []*ast.File, report func(fn, what 
 func scratchSlicesAreNotKept(c *core.Ctx, p *load.Prog) {
 	pkg := p.Bebop()
 	var files []*ast.File
-	for _, f := range pkg.Syntax {
-		switch filepath.Base(p.Fset.Position(f.Pos()).Filename) {
-		case "parse.go", "parse_expr.go", "tokenize.go", "token_tree.go", "eval_expr.go":
-			files = append(files, f)
-		}
-	}
+	files = filesOf(p, pkg, "parse.go", "parse_expr.go", "tokenize.go", "token_tree.go", "eval_expr.go")
 	n := scanReusedSlices(pkg.TypesInfo, files, func(fn, what string, pos token.Pos) {
 		c.Check("R12", fn+" does not keep a slice it re-uses", p.Pos(pos), false, what+": what the File holds for one definition is overwritten by the next")
 	})
@@ -673,12 +668,7 @@ func scanByteTables(info *types.Info, files []*ast.File, report func(fn, what st
 func byteTablesAreInjective(c *core.Ctx, p *load.Prog) {
 	pkg := p.Bebop()
 	var files []*ast.File
-	for _, f := range pkg.Syntax {
-		switch filepath.Base(p.Fset.Position(f.Pos()).Filename) {
-		case "tokenize.go", "token_tree.go", "token.go":
-			files = append(files, f)
-		}
-	}
+	files = filesOf(p, pkg, "tokenize.go", "token_tree.go", "token.go")
 	if len(files) == 0 {
 		c.Undecide("the tokenizer's files were not found")
 		return
@@ -776,12 +766,7 @@ func scanLineEndTrims(info *types.Info, files []*ast.File, report func(fn, what 
 func lineEndsAreTrimmedTogether(c *core.Ctx, p *load.Prog) {
 	pkg := p.Bebop()
 	var files []*ast.File
-	for _, f := range pkg.Syntax {
-		switch filepath.Base(p.Fset.Position(f.Pos()).Filename) {
-		case "parse.go", "parse_expr.go", "tokenize.go", "token_tree.go":
-			files = append(files, f)
-		}
-	}
+	files = filesOf(p, pkg, "parse.go", "parse_expr.go", "tokenize.go", "token_tree.go")
 	n := scanLineEndTrims(pkg.TypesInfo, files, func(fn, what string, pos token.Pos) {
 		c.Check("R11", fn+" trims both characters of a line end", p.Pos(pos), false, what+": the File read from a CRLF schema differs from the one read from the same schema with LF line ends")
 	})
@@ -1292,14 +1277,14 @@ func attributeMatrix(c *core.Ctx, p *load.Prog) {
 		switch x := n.(type) {
 		case *ast.AssignStmt:
 			if len(x.Rhs) == 1 {
-				if call, ok := x.Rhs[0].(*ast.CallExpr); ok && wire.Canon(call.Fun) == "readOpCode" && len(x.Lhs) >= 1 {
+				if call, ok := x.Rhs[0].(*ast.CallExpr); ok && calleeNamed(call, "readOpCode") && len(x.Lhs) >= 1 {
 					if id, ok := x.Lhs[0].(*ast.Ident); ok && id.Name != "_" {
 						attrs[id.Name] = true
 					}
 				}
 			}
 		case *ast.CallExpr:
-			if wire.Canon(x.Fun) == "readEnum" {
+			if calleeNamed(x, "readEnum") {
 				for _, a := range x.Args {
 					if id, ok := ast.Unparen(a).(*ast.Ident); ok {
 						if o := info.ObjectOf(id); o != nil {
@@ -1544,7 +1529,7 @@ func deprecationIndependent(c *core.Ctx, p *load.Prog, rule string) {
 				}
 				read := false
 				for _, st := range cc.Body {
-					if containsCall(st, func(call *ast.CallExpr) bool { return wire.Canon(call.Fun) == "readDeprecated" }) {
+					if containsCall(st, func(call *ast.CallExpr) bool { return calleeNamed(call, "readDeprecated") }) {
 						read = true
 					}
 					if as, ok := st.(*ast.AssignStmt); ok && read && len(as.Lhs) == 1 && len(as.Rhs) == 1 {
